@@ -367,8 +367,8 @@ func runC08(p *an.Prog, r *an.Run, tier string) {
 				bad = append(bad, "a host is put on the accept channel at "+p.Pos(s.Pos())+" without its whitelist call having returned nil (a failing or timed-out host would be handed to the client)")
 			}
 			// the node sent belongs to the service called: both are fields of one candidate at the go call site
-			dn := p.Derives(0, s.X)
-			ds := p.Derives(0, c.Common().Value)
+			dn := p.DerivesIn(rh, 2, s.X)
+			ds := p.DerivesIn(rh, 2, c.Common().Value)
 			common := false
 			for _, n := range dn.Nodes {
 				if (isHostServiceVal(n)) && ds.HasValue(n) {
